@@ -15,18 +15,30 @@
        (orch_reports_last_values);
      - the reported (violation, cost) is the accounting of that assignment when it is total
        (orch_cost_accounts_assignment).
-   Stated but NOT proved yet (kept visible; checked on every run by the correspondence and
-   the oracle only):
-     orch_cost_none_iff_incomplete : forall c d tr, NoDup (var_names d) ->
-        (reported_cost d (run c tr) = None <->
-         exists v, In v (var_names d) /\ last_value v tr = None)
-     orch_dpop_result_optimal : if the last values are an optimal total assignment (the
-        conclusion of C01 for DPOP) then the reported assignment is total and optimal and
-        cost + infinity * violation is the optimum.
-   Not expressible in the model (PARTIAL): OS threads, the timeout timer, agent start-up and
-   the transport of the messages; these are exercised by the real thread-mode runs of
-   harness/props/C22.py, whose management traces are replayed through M_Orch. *)
-From PyDcop Require Import Base M_Orch P_Orch.
+   Deepening (second half of this file; proofs in P_Orch2.v and P_OrchDpop.v, link model in
+   M_OrchDpop.v):
+     - orch_cost_none_iff_incomplete: no cost is reported iff some variable never reported a
+       value (needs: constraint scopes are variables; refuted without it);
+     - orch_deploy_each_once / orch_run_each_once: a distribution hosting every computation once
+       is deployed / run through exactly one agent per computation;
+     - the composition with the DPOP network model of C01 (M_Dpop over Net.v): each
+       computation's value-selection / finished events become value_change /
+       end_of_computation messages (M_OrchDpop.mgmt_of); the management transport is an explicit
+       ASSUMPTION (P_OrchDpop.transport: per computation, what AgentsMgt handled is a prefix of
+       what was posted, in order; nothing else names a computation), shown to hold for the
+       thread-mode queue (orch_thread_mode_transport).  Under it:
+         orch_dpop_stop_sound     the stop order is never early (every dcop, every schedule)
+         orch_dpop_stop_happens   at quiescence the stop order has been sent, on the last end
+         orch_dpop_result_optimal total assignment = DPOP's values, optimal (C01), (violation,
+                                  cost) = accounting of dcop_cost's terms
+         orch_dpop_stop_result    the same already at the moment of the stop order.
+   Not expressible in the model (PARTIAL): OS threads, the timeout timer, agent start-up, that
+   the run orders make the agents start the computations (Start actions of the schedule), and
+   the transport itself; these are exercised by the real thread-mode runs of
+   harness/props/C22.py, whose management traces are replayed through M_Orch and checked
+   against the transport assumption by the oracle. *)
+From PyDcop Require Import Base Net M_Dpop P_Dpop M_DpopValid P_Dpop2Tree P_Dpop2.
+From PyDcop Require Import M_Orch P_Orch P_Orch2 M_OrchDpop P_OrchDpop.
 
 (* [en] = what the orchestrator's Discovery holds when the message is handled (an input of the
    step); [ended tr n] = some end_of_computation for n occurs in tr. *)
@@ -50,6 +62,21 @@ Theorem orch_cost_accounts_assignment : forall d m costs_c costs_v,
                             sum_finite (d_infinity d) (costs_c ++ costs_v)).
 Proof. exact orch_cost_accounts_assignment_l. Qed.
 
+(* global_metrics reports cost = violation = None (solution_cost raised ValueError) exactly when
+   some variable of the dcop never reported a value.  [scopes_in_vars d]: every scope variable of
+   every constraint is a variable of the dcop (DCOP.add_constraint guarantees it); without it the
+   statement is false of the code (next theorem). *)
+Theorem orch_cost_none_iff_incomplete : forall c d tr,
+  NoDup (var_names d) -> scopes_in_vars d ->
+  (reported_cost d (run c tr) = None <->
+   exists v, In v (var_names d) /\ last_value v tr = None).
+Proof. exact orch_cost_none_iff_incomplete_l. Qed.
+
+Theorem orch_cost_none_unguarded_refuted : exists c d tr,
+  NoDup (var_names d) /\ reported_cost d (run c tr) = None /\
+  ~ exists v, In v (var_names d) /\ last_value v tr = None.
+Proof. exact orch_cost_none_unguarded_refuted_l. Qed.
+
 (* non-vacuity: a 2-variable DCOP, two agents, a complete run; stop goes out on the second end,
    the reported assignment is the last values, cost 3 with one violated (infinite) constraint *)
 Example c22_nonvacuous :
@@ -67,3 +94,185 @@ Example c22_nonvacuous :
   reported_assignment (run c tr) = [("v00", 0); ("v01", 1)]%string /\
   reported_cost d (run c tr) = Some (1, 3).
 Proof. vm_compute. repeat split; reflexivity. Qed.
+
+(* ================================================================== *)
+(*  Deepening: the distribution, and the composition with DPOP (C01)    *)
+(* ================================================================== *)
+(* a distribution that hosts every computation of the graph exactly once: with its agents
+   registered, the deploy and the run orders reach every computation through exactly one
+   agent, its host *)
+Theorem orch_deploy_each_once : forall c m en n,
+  dist_hosts_once c -> (forall a, In a (dist_agents c) -> In a (e_agents en)) ->
+  In n (g_nodes c) ->
+  exists a, In (ODeploy a n) (snd (step c m en EDeploy)) /\
+            forall a', In (ODeploy a' n) (snd (step c m en EDeploy)) -> a' = a.
+Proof. exact orch_deploy_each_once_l. Qed.
+
+Theorem orch_run_each_once : forall c m en n,
+  g_repair_only c = false -> dist_hosts_once c ->
+  (forall a, In a (dist_agents c) -> In a (e_agents en)) ->
+  In n (g_nodes c) ->
+  exists a, In (ORun a (computations_hosted c a)) (snd (step c m en ERun)) /\
+            In n (computations_hosted c a) /\
+            forall a' cs, In (ORun a' cs) (snd (step c m en ERun)) -> In n cs -> a' = a.
+Proof. exact orch_run_each_once_l. Qed.
+
+(* the DPOP side of the link, EVERY dcop (valid tree or not) and EVERY schedule: what a
+   computation tells its agent is nothing while it is not finished, and exactly one value
+   selection followed by one finished notification once it is; it then holds that value *)
+Theorem dpop_events_ordered : forall P sched x,
+  let r := Net.run (dpop_proto P) sched in
+  (s_fin (w_st (nodes (fst r) x)) = false -> filter (sel_fin x) (snd r) = []) /\
+  (s_fin (w_st (nodes (fst r) x)) = true ->
+     exists v k, s_value (w_st (nodes (fst r) x)) = Some (v, k) /\
+                 filter (sel_fin x) (snd r) = [EvSelect x v k; EvFinished x]).
+Proof. exact dpop_events_ordered_l. Qed.
+
+(* all computations finished => nothing in flight: C01's completeness hypothesis holds *)
+Theorem dpop_all_finished_complete : forall P sched, dpop_valid P ->
+  let r := Net.run (dpop_proto P) sched in
+  (forall x, In x (tree_ids P) -> s_fin (w_st (nodes (fst r) x)) = true) -> complete P (fst r).
+Proof. exact all_fin_complete. Qed.
+
+(* solution_cost / global_metrics on the orchestrator's DCOP object [dcop_of L P inf] versus
+   the cost of the DPOP model: for a value table holding sg(x) under the name of every node,
+   (violation, cost) = (number of terms of dcop_cost equal to infinity, sum of the others).
+   Side conditions: distinct names, cost tables of the declared shape, constraint dimensions
+   are variables, sg in the domains. *)
+Theorem orch_solution_cost_is_dcop_cost : forall P L inf (m : mgt) (sg : asg),
+  NoDup (map (lk_name L) (tree_ids P)) ->
+  cons_shaped P = true ->
+  (forall kr x, In kr (dc_cons P) -> In x (r_dims (snd kr)) -> In x (tree_ids P)) ->
+  in_dom (dsize P) sg (tree_ids P) ->
+  NoDup (map fst (m_values m)) ->
+  (forall x, In x (tree_ids P) -> slookup (lk_name L x) (m_values m) = Some (Z.of_nat (aval sg x))) ->
+  reported_cost (dcop_of L P inf) m
+  = Some (count_inf inf (cost_terms P sg), sum_finite inf (cost_terms P sg)).
+Proof. exact reported_cost_dcop_cost. Qed.
+
+Theorem orch_cost_plus_violations : forall inf l, sum_finite inf l + inf * count_inf inf l = zsum l.
+Proof. exact sum_count_zsum. Qed.
+
+(* thread mode meets the transport assumption: AgentsMgt handles the value / end messages in the
+   global posting order (one queue, equal priority), interleaved with anything else *)
+Theorem orch_thread_mode_transport : forall P L evs tr,
+  (forall x y, In x (tree_ids P) -> In y (tree_ids P) -> lk_name L x = lk_name L y -> x = y) ->
+  events_in_tree P evs = true ->
+  filter is_ve (map fst tr) = flat_map (mgmt_of L) evs ->
+  delivered P L evs tr.
+Proof. exact fifo_delivered. Qed.
+
+(* SAFETY -- every dcop, every schedule of the computations, every moment, every trace allowed by
+   the transport assumption: if AgentsMgt orders the agents to stop while handling anything but
+   a stop request (timeout / external stop), every DPOP computation has finished and the value
+   table already holds the value each of them selected *)
+Theorem orch_dpop_stop_sound : forall P L c sched tr e en ag,
+  link_ok P L c ->
+  let r := Net.run (dpop_proto P) sched in
+  transport P L (snd r) (tr ++ [(e, en)]) ->
+  e <> EStopReq -> In (OStop ag) (snd (step c (run c tr) en e)) ->
+  forall x, In x (tree_ids P) ->
+    s_fin (w_st (nodes (fst r) x)) = true /\
+    slookup (lk_name L x) (reported_assignment (run c tr)) = Some (chosen (fst r) x).
+Proof. exact stop_sound. Qed.
+
+(* TERMINATION by end of computations -- valid tree, non-empty problem: once the computations
+   are quiescent (complete) and their management messages are handled, the trace contains an
+   end_of_computation on which the stop order went to every registered agent, and no earlier
+   step (other than a stop request) sent one *)
+Theorem orch_dpop_stop_happens : forall P L c sched tr,
+  dpop_valid P -> link_ok P L c -> tree_ids P <> [] ->
+  let r := Net.run (dpop_proto P) sched in
+  complete P (fst r) -> delivered P L (snd r) tr ->
+  exists tr1 a x en tr2, tr = tr1 ++ (EEnd a x, en) :: tr2 /\
+    (forall ag, In (OStop ag) (snd (step c (run c tr1) en (EEnd a x))) <-> In ag (e_agents en)) /\
+    (forall p e' en' s ag, tr1 = p ++ (e', en') :: s -> e' <> EStopReq ->
+        ~ In (OStop ag) (snd (step c (run c p) en' e'))).
+Proof. exact stop_happens. Qed.
+
+(* THE COMPOSITION (2): dpop_check P (C01's hypothesis), cost tables of the declared shape, the
+   orchestrator was given the graph of P under distinct names, the computations are quiescent
+   and their management messages handled (transport assumption).  Then every computation has
+   finished; the reported assignment is total, is exactly the values DPOP selected and has no
+   other key; that assignment is in the domains and optimal (brute force over all assignments,
+   by C01's dpop_all_schedules); and the reported (violation, cost) is the accounting of the
+   terms of its dcop_cost: cost + infinity * violation = the optimum, and cost = the optimum when
+   no term equals the infinity constant. *)
+Theorem orch_dpop_result_optimal : forall P L c inf sched tr,
+  dpop_check P = true -> cons_shaped P = true -> link_ok P L c ->
+  let r := Net.run (dpop_proto P) sched in
+  complete P (fst r) -> delivered P L (snd r) tr ->
+  let m := run c tr in
+  let sg := P_Dpop2.assignment P (fst r) in
+  (forall x, In x (tree_ids P) ->
+     s_fin (w_st (nodes (fst r) x)) = true /\
+     slookup (lk_name L x) (reported_assignment m) = Some (chosen (fst r) x)) /\
+  (forall s v, In (s, v) (reported_assignment m) -> exists x, In x (tree_ids P) /\ s = lk_name L x) /\
+  in_dom (dsize P) sg (tree_ids P) /\
+  (forall a, in_dom (dsize P) a (tree_ids P) -> mle (dc_mode P) (dcop_cost P sg) (dcop_cost P a)) /\
+  is_best (dc_mode P) (map (dcop_cost P) (ext P (tree_ids P) [])) (dcop_cost P sg) /\
+  reported_cost (dcop_of L P inf) m
+    = Some (count_inf inf (cost_terms P sg), sum_finite inf (cost_terms P sg)) /\
+  sum_finite inf (cost_terms P sg) + inf * count_inf inf (cost_terms P sg) = dcop_cost P sg /\
+  (count_inf inf (cost_terms P sg) = 0 -> sum_finite inf (cost_terms P sg) = dcop_cost P sg).
+Proof. exact orch_dpop_result_optimal_l. Qed.
+
+(* the same result is already in place at the moment the stop order is sent, on every schedule
+   (complete or not) and every trace delivered so far: the stop order is never early *)
+Theorem orch_dpop_stop_result : forall P L c inf sched tr e en ag,
+  dpop_check P = true -> cons_shaped P = true -> link_ok P L c ->
+  let r := Net.run (dpop_proto P) sched in
+  transport P L (snd r) (tr ++ [(e, en)]) ->
+  e <> EStopReq -> In (OStop ag) (snd (step c (run c tr) en e)) ->
+  let m := run c tr in
+  let sg := P_Dpop2.assignment P (fst r) in
+  (forall x, In x (tree_ids P) ->
+     s_fin (w_st (nodes (fst r) x)) = true /\
+     slookup (lk_name L x) (reported_assignment m) = Some (chosen (fst r) x)) /\
+  complete P (fst r) /\
+  is_best (dc_mode P) (map (dcop_cost P) (ext P (tree_ids P) [])) (dcop_cost P sg) /\
+  reported_cost (dcop_of L P inf) m
+    = Some (count_inf inf (cost_terms P sg), sum_finite inf (cost_terms P sg)) /\
+  sum_finite inf (cost_terms P sg) + inf * count_inf inf (cost_terms P sg) = dcop_cost P sg.
+Proof. exact orch_dpop_stop_result_l. Qed.
+
+(* non-vacuity of the composition: a 3-variable chain (one unary constraint is the infinity
+   constant for every value), two agents, a UTIL held before start; the management trace is
+   the thread-mode one.  All hypotheses of orch_dpop_result_optimal hold, the stop order goes
+   out on the last end message, and the reported (violation, cost) = (1, 1) with
+   1 + 10000 * 1 = dcop_cost = the optimum. *)
+Definition ex_P : M_Dpop.dcop := M_Dpop.mkDcop Min [(0,2);(1,2);(2,3)] [(0,[0;0]);(1,[1;0]);(2,[0;0;0])]
+  [(0, mkRel [0;1] (Node [Node [Leaf 3; Leaf 1]; Node [Leaf 0; Leaf 4]]));
+   (1, mkRel [1;2] (Node [Node [Leaf 2; Leaf 5; Leaf 1]; Node [Leaf 0; Leaf 2; Leaf 7]]));
+   (2, mkRel [2] (Node [Leaf 10000; Leaf 10000; Leaf 10000]))]
+  [mkPN 0 None [1] [] [] [0]; mkPN 1 (Some 0) [2] [] [] [0;1]; mkPN 2 (Some 1) [] [] [] [1;2]].
+Definition ex_sched : list (@action) :=
+  [Start 2; Deliver 2 1; Start 0; Start 1; Deliver 2 1; Deliver 1 0; Deliver 0 1; Deliver 1 2].
+Definition ex_cfg := mkCfg ["v00"; "v01"; "v02"]%string [("a00", ["v00"; "v02"]); ("a01", ["v01"])]%string false.
+Definition ex_L := link_of [(0, "v00"); (1, "v01"); (2, "v02")]%string ex_cfg.
+Definition ex_en := mkEnv ["a00"; "a01"]%string ["v00"; "v01"; "v02"]%string.
+Definition ex_r := Net.run (dpop_proto ex_P) ex_sched.
+Definition ex_tr := map (fun e => (e, ex_en)) [EAgentAdded "a00"; EAgentAdded "a01"; EDeploy; ERun]%string
+                    ++ fifo_trace ex_L ex_en (snd ex_r).
+
+Example c22_composed_nonvacuous :
+  dpop_check ex_P = true /\ cons_shaped ex_P = true /\ link_ok ex_P ex_L ex_cfg /\
+  complete ex_P (fst ex_r) /\ delivered ex_P ex_L (snd ex_r) ex_tr /\
+  map fst ex_tr = [EAgentAdded "a00"; EAgentAdded "a01"; EDeploy; ERun;
+                   EValue "a00" "v00" 0; EEnd "a00" "v00"; EValue "a01" "v01" 1; EEnd "a01" "v01";
+                   EValue "a00" "v02" 0; EEnd "a00" "v02"]%string /\
+  snd (step ex_cfg (run ex_cfg (removelast ex_tr)) ex_en (EEnd "a00" "v02"%string))
+    = [OStop "a00"; OStop "a01"]%string /\
+  reported_assignment (run ex_cfg ex_tr) = [("v00", 0); ("v01", 1); ("v02", 0)]%string /\
+  reported_cost (dcop_of ex_L ex_P 10000) (run ex_cfg ex_tr) = Some (1, 1) /\
+  dcop_cost ex_P (P_Dpop2.assignment ex_P (fst ex_r)) = 10001.
+Proof.
+  assert (Hinj : forall x y, In x (tree_ids ex_P) -> In y (tree_ids ex_P) ->
+                 lk_name ex_L x = lk_name ex_L y -> x = y).
+  { intros x y [<-|[<-|[<-|[]]]] [<-|[<-|[<-|[]]]]; vm_compute; congruence. }
+  split; [vm_compute; reflexivity|]. split; [vm_compute; reflexivity|].
+  split; [constructor; [exact Hinj|vm_compute; reflexivity]|].
+  split; [apply completeb_complete; vm_compute; reflexivity|].
+  split; [apply fifo_delivered; [exact Hinj|vm_compute; reflexivity|vm_compute; reflexivity]|].
+  vm_compute. repeat split; reflexivity.
+Qed.
